@@ -363,7 +363,7 @@ def rule_pruning(ctx: Ctx, rule: str) -> None:
             bad_w.append(f'os.walk({[_tag(a) for a in ws[0][1]]}, {({k: _tag(v) for k, v in ws[0][2].items()})})')
         W = 'os.walk(' + ', '.join([_tag(a) for a in ws[0][1]] + [f'{k}={_tag(v)}' for k, v in ws[0][2].items()]) + ')'
         E = f'elem({W})'
-        copies = (f'for:{E}[1][:]', f'for:list({E}[1])', f'for:{E}[1].copy()')
+        copies = (f'for:{E}[1][:]', f'for:list({E}[1])', f'for:{E}[1].copy()', f'for:tuple({E}[1])', f'for:reversed({E}[1][:])', f'for:sorted({E}[1])')
         removes = [e for e in p.of('call') if e[1].endswith('.remove')]
         in_dirs = [e for e in p.events if e[0] in ('call', 'except') and isinstance(e[-1], tuple) and len(e[-1]) == 2 and e[-1][1].startswith(f'for:') and f'{E}[1]' in e[-1][1]]
         if not in_dirs:
@@ -387,7 +387,7 @@ def rule_pruning(ctx: Ctx, rule: str) -> None:
            witness='WcMatch without SYMLINKS must terminate on a symlink cycle; pruning needs top-down')
     ctx.ob(rule, f'{WM}:WcMatch._walk/remove-on-walk-list', not bad_l, site, 'the name being examined is removed from the list yielded by os.walk itself',
            'as expected' if not bad_l else bad_l[0], witness="WcMatch('.', '*', 'skip', RECURSIVE) must not return files below skip/; a rebound list prunes nothing")
-    ctx.ob(rule, f'{WM}:WcMatch._walk/iterates-copy', not bad_k, site, 'the loop runs over a copy (dirs[:], list(dirs), dirs.copy()) of the list it prunes',
+    ctx.ob(rule, f'{WM}:WcMatch._walk/iterates-copy', not bad_k, site, 'the loop runs over a copy (dirs[:], list(dirs), tuple(dirs), dirs.copy(), sorted(dirs)) of the list it prunes',
            'as expected' if not bad_k else bad_k[0], witness='removing from the list being iterated skips every other directory')
     ctx.ob(rule, f'{WM}:WcMatch._walk/remove-condition', not bad_c, site, 'removed iff not _valid_folder(base, name), or the check raised', f'{n_dir} rows agree' if not bad_c else sorted(set(bad_c))[0])
 
@@ -466,11 +466,12 @@ def rule_run_prologue(ctx: Ctx, rule: str) -> None:
     repo = ctx.repo
     im = repo.func(WM, 'WcMatch.imatch')
     q = fq(im)
-    heads = [n for n in q.cfg.nodes if n.kind == 'for']
-    walk_iter = [n for n in heads if norm_src(n.ast.iter) == 'self._walk()']
-    if len(walk_iter) != 1:
+    # (`for f in self._walk(): yield f` is canonicalised to `yield from self._walk()`, K12)
+    sites = [s for s in q.stmts(lambda n: isinstance(n, ast.Expr) and isinstance(n.value, ast.YieldFrom) and norm_src(n.value.value) == 'self._walk()')]
+    heads = [n for n in q.cfg.nodes if n.kind == 'for' and norm_src(n.ast.iter) == 'self._walk()']
+    if len(sites) + len(heads) != 1:
         raise AnalysisError('imatch: iteration of self._walk() not found')
-    h = walk_iter[0].id
+    h = q.node_of(sites[0]) if sites else heads[0].id
     resets = q.calls(lambda s: s == 'self.on_reset')
     zero = q.stmts(lambda n: isinstance(n, ast.Assign) and norm_src(n) == 'self._skipped = 0')
     ok = len(resets) == 1 and len(zero) == 1 and q.cfg.dominates(q.node_of(resets[0]), h) and q.cfg.dominates(q.node_of(zero[0]), h)
